@@ -35,8 +35,12 @@ def run(tier):
     for ok, text in res:
         if not ok:
             raise vlib.Broken("replay_assign.cpp does not compile:\n" + text[-3000:])
+    # four-dimensional roots under every composition of up to three dimension permutations
+    perm4 = consts(4, 2, 3, ["assign_array", "assign_rotview", "assign_constview", "elements_assign", "assign_rvalue_rotview", "assign_interleaved", "fill", "swap"])
+    perm4["OpNames"] = {"rotated", "unrotated", "transposed"}
     plan = [("c05_d3", consts(3, 2, 2, KINDS), exe), ("c05_d2", consts(2, 3, 2, KINDS), exe),
-            ("c05_move_from", consts(3, 2, 1, ["move_from"]), exe_trk), ("c05_trk", consts(3, 2, 1, TRK_KINDS), exe_trk)]
+            ("c05_move_from", consts(3, 2, 1, ["move_from"]), exe_trk), ("c05_trk", consts(3, 2, 1, TRK_KINDS), exe_trk),
+            ("c05_d4_perm", perm4, exe)]
     if tier == "thorough":
         plan += [("c05_d3_e3", consts(3, 3, 2, KINDS), exe), ("c05_d4", consts(4, 2, 2, KINDS), exe),
                  ("c05_move_from2", consts(3, 2, 2, ["move_from"]), exe_trk), ("c05_trk2", consts(3, 2, 2, TRK_KINDS), exe_trk)]
